@@ -1,7 +1,7 @@
 from props import job
 
 PROP = dict(
-    technique='rapid-generated multigraphs and requests through findPath/newRoute/RequestRoute; validity predicate on the returned route in exact math/big arithmetic (many routes are correct; errors always acceptable)',
+    technique='rapid-generated multigraphs and requests through findPath/newRoute/RequestRoute and through ChannelRouter.FindRoute/BuildRoute (explicit hop lists, minimum-amount mode); validity predicate on the returned route in exact math/big arithmetic (many routes are correct; errors always acceptable)',
     level="exploration",
     rule=("rapid draws a directed multigraph (3-7 nodes, 3-12 channels incl. parallel ones, "
           "per-direction policies that may be missing/disabled, inbound fees of either sign, "
@@ -17,7 +17,33 @@ PROP = dict(
           "lnd's inbound-fee rule; error returns are accepted. Non-trivial = a route with >=2 "
           "hops and (an inbound fee != 0 charged on the path, or a fee/CLTV limit within 1% of "
           "what the route uses, or a hop that had parallel channels with a different policy). "
-          "Distinct = distinct (graph, request, phase)."),
+          "Distinct = distinct (graph, request, phase). "
+          "Extension (routes from the other constructors of routing/router.go): "
+          "TestVerifC19FindRoute answers the same requests with the real ChannelRouter.FindRoute "
+          "(routing.New over the model graph, bandwidthManager over a link lookup, chain height, "
+          "Config.PathFindingConfig) and judges them with the same predicate and the same feedback. "
+          "TestVerifC19BuildRoute: rapid draws the multigraph as above plus a hop list (loop-free "
+          "walk from the own node over usable channel directions, occasionally over a missing / "
+          "disabled / policy-less step; circular lists ending at the own node; lists revisiting "
+          "nodes; 16-30 hop ping-pong lists; unknown nodes; empty), amount = explicit (incl. "
+          "values on a min/max/capacity/bandwidth limit) or None (minimum routable amount, with a "
+          "raised min_htlc somewhere on the path in 60%), outgoing channel, final CLTV delta, "
+          "payment address, first-hop custom records, traffic shaper, link states (bandwidth, "
+          "missing, ineligible, no HTLC slot); the real ChannelRouter.BuildRoute answers; when a "
+          "route comes back a second call is derived from it (max_htlc / min_htlc / capacity of a "
+          "used channel or the bandwidth of the first one set to the used amount -0/1/2/9/60/1000, "
+          "max_htlc well below it, used direction disabled or policy removed, explicit<->minimum "
+          "mode, amount +-1, other outgoing channel). Oracle: the route visits exactly the "
+          "requested hops, delivers the requested amount (>= 1 msat in minimum mode), and passes "
+          "the same validity predicate (c19Validate) with no fee/CLTV limit; additionally "
+          "getEdgeUnifiers / senderAmtBackwardPass / receiverAmtForwardPass are called directly "
+          "and compared with exact arithmetic from internal/verif/bigref over the model's "
+          "policies: explicit mode sender amount >= exact requirement; minimum mode |exact "
+          "requirement for the forward pass's receiver amount - backward sender amount| <= "
+          "rounding slack, and the sender amount pays for >= 1 msat. Non-trivial (BuildRoute) = a "
+          "returned route with (>= 3 hops and an inbound fee != 0 charged on it) or (>= 2 hops "
+          "and a hop with parallel channels of different policy) or (minimum mode and the "
+          "receiver amount > 1 msat, i.e. some min_htlc binds)."),
     assumptions=[
         "fee rates <= 1e6 ppm, |inbound rate| <= 1e6 ppm, requested amounts <= 7e10 msat; a returned route whose total amount exceeds 5e12 msat (fees compounding over extreme policies) is counted outside_domain and not judged: up to there lnd's uint64/int64 fee products cannot wrap",
         "for the node's own channels the bandwidth hint replaces the disabled flag (documented in graphParams.bandwidthHints); a missing hint means 'assume enough'",
@@ -25,16 +51,26 @@ PROP = dict(
         "LastHop is not combined with blinded tails (the pathfinding target of a multi-hop blinded path is a dummy NUMS hop)",
         "route hints carry no min/max HTLC and no inbound fee (BOLT-11 cannot express them); the blinded tail is judged as one virtual channel from the introduction node with the aggregate relay parameters",
         "simple-path (no node visited twice) is recorded as a label, not asserted: the property text does not demand it",
+        "FindRoute/BuildRoute: every channel of the own node has a bandwidth; a channel without a link, with a link that is not eligible to forward or that cannot take another HTLC has bandwidth 0 (bandwidthManager docs). FindRoute attaches no payment address (its caller does), so none is demanded of its routes",
+        "BuildRoute: the traffic shaper, when present, handles no channel and declares no HTLC custom (custom-HTLC payments skip the amount checks by design); first-hop custom records are serialized CustomRecords as routerrpc produces them; explicit amounts >= 1 (routerrpc maps 0 to 'minimum')",
+        "BuildRoute: a case is outside the domain (counted, not judged) when an upper bound of the sender amount computed from the model alone (largest fees of each node pair; for minimum mode starting from the largest min_htlc on the path and applied twice) exceeds 5e12 msat, or, in minimum mode, when a node on the path announces an inbound fee rate <= -100 % (outgoingFromIncoming documents that it gives up there)",
+        "BuildRoute minimum mode: a hop above its channel's capacity is not judged when that channel's policy has no max_htlc or max_htlc > capacity: such an update cannot pass netann.ValidateChannelUpdateFields, and after a min_htlc bump the forward pass re-checks the chosen policy's min/max but only the largest capacity of the parallel channels (counted outside_domain_max_htlc_gt_capacity)",
     ],
     jobs=dict(
         quick=[
             job("routing", "^TestVerifC19FindPath$", ["TestVerifC19FindPath"], 12000, shards=6),
             job("routing", "^TestVerifC19RequestRoute$", ["TestVerifC19RequestRoute"], 3000, shards=2),
+            job("routing", "^TestVerifC19BuildRoute$", ["TestVerifC19BuildRoute"], 30000, shards=6),
+            job("routing", "^TestVerifC19FindRoute$", ["TestVerifC19FindRoute"], 1500, shards=2),
         ],
         thorough=[
             job("routing", "^TestVerifC19FindPath$", ["TestVerifC19FindPath"], 30000, shards=12,
                 timeout=3000, env=dict(VERIF_C19_REPEATS=3, VERIF_C19_ONION_EVERY=4)),
             job("routing", "^TestVerifC19RequestRoute$", ["TestVerifC19RequestRoute"], 24000, shards=4,
+                timeout=3000),
+            job("routing", "^TestVerifC19BuildRoute$", ["TestVerifC19BuildRoute"], 100000, shards=4,
+                timeout=3000),
+            job("routing", "^TestVerifC19FindRoute$", ["TestVerifC19FindRoute"], 12000, shards=4,
                 timeout=3000),
         ],
     ),
